@@ -222,27 +222,39 @@ theorem convert_moves_exactly (k : Kind) (g u r n : Nat) (L L' : Ledger) (g' u' 
     rw [hd, holdings]; omega
 
 /-- **operations move only what they say** (per operation, not only per flow): for every configuration, state and
-operation of the 18 kinds, if the operation succeeds then the holdings of EVERY user in EVERY token group (base coin,
-bridge denominations and ERC-20 together) change by exactly `stated` — the sender of a transfer pays amount + fee, a
-cancel or a refund gives back exactly what the stored record holds, a fee increase costs the added fee, a conversion
-moves the amount from sender to receiver, an inbound bridge call that fails nets to zero for everybody, building /
-executing / timing out a batch moves nothing — and by 0 for every other user and group.  (A failing operation changes
-nothing: `failed_op_is_noop`.) -/
-theorem op_moves_only_what_it_says (cfg : Cfg) (s s' : State) (op : Op) (g u : Nat) (h : step cfg s op = .ok s') :
-    holdings s'.L g (U u) = holdings s.L g (U u) + stated s op u g :=
-  step_holdings cfg s s' op g u h
+operation of the 18 kinds, if the operation succeeds then the holdings of EVERY holder — user, contract (the callee of
+a failing inbound bridge call), the precompile and evm module accounts; every account that is not a crosschain / erc20
+module account or the WFX contract — in EVERY token group (base coin, bridge denominations and ERC-20 together) change
+by exactly `stated`: the sender of a transfer pays amount + fee, a cancel or a refund gives back exactly what the stored
+record holds, a fee increase costs the added fee, a conversion moves the amount from sender to receiver, an inbound
+bridge call that fails nets to zero for everybody, building / executing / timing out a batch moves nothing — and by 0
+for every other holder and group.  (A failing operation changes nothing: `failed_op_is_noop`.) -/
+theorem op_moves_only_what_it_says (cfg : Cfg) (s s' : State) (op : Op) (g : Nat) (x : Addr) (hx : Holder x)
+    (h : step cfg s op = .ok s') : holdings s'.L g x = holdings s.L g x + stated s op x g :=
+  step_holdings cfg s s' op g x hx h
 
-/-- … along whole histories: a user's holdings are the initial holdings plus the stated amounts of the operations that
+/-- in particular contracts and the precompile / evm module accounts never gain or lose anything (no operation states
+a movement for them) -/
+theorem contracts_gain_nothing (cfg : Cfg) (s s' : State) (op : Op) (g m : Nat) (h : step cfg s op = .ok s') :
+    holdings s'.L g (.ext m) = holdings s.L g (.ext m) := by
+  have := op_moves_only_what_it_says cfg s s' op g (.ext m) (holder_ext m) h
+  rw [this]
+  have : stated s op (.ext m) g = 0 := by
+    cases op <;> simp only [stated, U, reduceCtorEq, and_false, ↓reduceIte, Int.neg_zero, Int.sub_zero] <;>
+      (repeat' split) <;> rfl
+  omega
+
+/-- … along whole histories: a holder's holdings are the initial holdings plus the stated amounts of the operations that
 succeeded -/
-theorem holdings_are_sum_of_stated (cfg : Cfg) (ops : List Op) (s : State) (g u : Nat) :
-    holdings (runOps cfg s ops).L g (U u) = holdings s.L g (U u) +
+theorem holdings_are_sum_of_stated (cfg : Cfg) (ops : List Op) (s : State) (g : Nat) (x : Addr) (hx : Holder x) :
+    holdings (runOps cfg s ops).L g x = holdings s.L g x +
       (ops.foldl (fun (acc : State × Int) op =>
-        (stepT cfg acc.1 op, acc.2 + (match step cfg acc.1 op with | .ok _ => stated acc.1 op u g | .error _ => 0)))
+        (stepT cfg acc.1 op, acc.2 + (match step cfg acc.1 op with | .ok _ => stated acc.1 op x g | .error _ => 0)))
         (s, 0)).2 := by
   suffices H : ∀ (ops : List Op) (s : State) (z : Int),
-      holdings (runOps cfg s ops).L g (U u) + z = holdings s.L g (U u) +
+      holdings (runOps cfg s ops).L g x + z = holdings s.L g x +
         (ops.foldl (fun (acc : State × Int) op =>
-          (stepT cfg acc.1 op, acc.2 + (match step cfg acc.1 op with | .ok _ => stated acc.1 op u g | .error _ => 0)))
+          (stepT cfg acc.1 op, acc.2 + (match step cfg acc.1 op with | .ok _ => stated acc.1 op x g | .error _ => 0)))
           (s, z)).2 by
     have := H ops s 0; omega
   intro ops
@@ -259,8 +271,8 @@ theorem holdings_are_sum_of_stated (cfg : Cfg) (ops : List Op) (s : State) (g u 
       have h1 : stepT cfg s op = s1 := by simp [stepT, hs]
       rw [h1]
       dsimp only
-      have := ih s1 (z + stated s op u g)
-      have h2 := op_moves_only_what_it_says cfg s s1 op g u hs
+      have := ih s1 (z + stated s op x g)
+      have h2 := op_moves_only_what_it_says cfg s s1 op g x hx hs
       omega
 
 /-! ### the bridge-side escrow of locking tokens -/
